@@ -46,12 +46,15 @@ Finish == /\ stage = "scan" /\ pos = Len(b) + 1
           /\ stage' = "judge"
           /\ UNCHANGED <<b, m, pos, runStart, agree>>
 
-ImplOut == Impl[Index(b, m) + 1]
+\* three outcomes per input: the array passed as a fresh contiguous array, as a reversed view of its mirror image, as a strided view
+\* (every second element of a longer array) - "every boolean array" includes views
+ImplOut(j) == Impl[Index(b, m) * 3 + j]
+ImplOK == \A j \in 1 .. 3 : ImplOut(j) = BitMask(out)
 
 Judge == /\ stage = "judge"
-         /\ agree' = (~UseImpl \/ ImplOut = BitMask(out))
-         /\ IF UseImpl /\ ImplOut # BitMask(out)
-              THEN PrintT(<<"DISAGREE", Index(b, m), b, m, BitMask(out), ImplOut>>) ELSE TRUE
+         /\ agree' = (~UseImpl \/ ImplOK)
+         /\ IF UseImpl /\ ~ImplOK
+              THEN PrintT(<<"DISAGREE", Index(b, m), b, m, BitMask(out), <<ImplOut(1), ImplOut(2), ImplOut(3)>>>>) ELSE TRUE
          /\ stage' = "done"
          /\ UNCHANGED <<b, m, pos, runStart, out>>
 
